@@ -29,6 +29,10 @@ func (a *abyss) OnInitialize(system *ActorSystem) {
 }
 
 func (a *abyss) DeliveryUserMessage(receiver, sender, forward *prc.ProcessId, message prc.Message) {
+	// the message arrives wrapped (prc.WrapMessage): the dead letter is its content
+	if w, ok := message.(*prc.MessageWrapper); ok {
+		message = w.Message
+	}
 	switch message.(type) {
 	case *OnAbyssMessageEvent, *messages.AbyssMessageEvent, *messages.LocalPublishRequest:
 		return
